@@ -385,6 +385,7 @@ pub fn run(a: &Args) {
     }
     // ---- call sites: the real contracts on the simulated chain
     let mut site_distinct = BTreeSet::new();
+    let mut seen_keys: BTreeSet<String> = BTreeSet::new();
     let mut site_sampled = false;
     for c in site_cases.iter() {
         rep.evaluations += 1;
@@ -419,7 +420,8 @@ pub fn run(a: &Args) {
         }
         for (key, what) in found {
             nviol += 1;
-            if nviol <= 20 {
+            // one replay per distinct shape of failure (the key), the first case that showed it
+            if seen_keys.len() < 60 && seen_keys.insert(key.clone()) {
                 let body = format!(
                     "{{\n \"property\": \"C06\",\n \"site_case\": {},\n \"observed\": {},\n \"key\": {},\n \"violation\": {}\n}}\n",
                     serde_json::to_string(c).unwrap(),
@@ -435,6 +437,9 @@ pub fn run(a: &Args) {
     rep.distinct_nontrivial = (distinct.len() + site_distinct.len()) as u64;
     rep.rule = "sg1 functions called directly on: every fee in a dense initial range, all 2^k,2^k±1,10^k,10^k±1, random u128 of random bit length, x {dev present/absent} x {featured} x {native, IBC}; payment entry points on fee-1/fee/fee+1/0/random payments with valid and malformed coin lists. Non-trivial = distinct input whose output carries a non-zero amount. Call sites: every caller of those functions in the contracts, run on the simulated chain (factories x fee denom x mint denom, 11 minters x public/whitelist/airdrop mint x denom, shuffle, whitelist creation / IncreaseMemberLimit, Merkle whitelists, EnableUpdatable, sg-eth-airdrop instantiate) with fees 1,2,3,odd,even,large and payments fee-1/fee/fee+1/none/wrong denom/two coins; non-trivial = distinct accepted call that charged a non-zero fee.".into();
     rep.notes.extend(SITE_NOTES.iter().map(|s| s.split_whitespace().collect::<Vec<_>>().join(" ")));
+    if a.replay.is_none() {
+        rep.notes.push(sites::probe_shuffle_fee_in_ibc_denom());
+    }
     rep.notes.push(format!("{} direct calls, {} call-site cases ({} accepted with a non-zero fee)", cases.len(), site_cases.len(), site_distinct.len()));
     // the site cases are spread evenly over the direct ones, so that every shard of the
     // model run gets its share of them
